@@ -1,7 +1,7 @@
 #!/bin/bash
 # tools/run_all_quick.sh [tier] [props...] — run every registered check in turn on /repo, log to scratch/allquick/<prop>.log
 tier=${1:-quick}; shift
-props=${@:-C01 C02 C03 C04 C05 C06 C07 C08 C09 C10 C11 C12 C13 C14 C15 C17}
+props=${@:-C01 C02 C03 C04 C05 C06 C07 C08 C09 C10 C11 C12 C13 C14 C15 C16 C17}
 cd /verif; mkdir -p scratch/allquick
 for p in $props; do
   /usr/bin/time -f "%e s" ./check $p --tier $tier > scratch/allquick/$p.log 2>&1; rc=$?
